@@ -34,8 +34,10 @@ func c14Threads(x *mc.Cell, scenario string, max uint32, bound int) {
 			api := l2monitor.NewMonAPI()
 			api.Yield = true
 			mon := channelmonitor.NewMonitor(api, &channelmonitor.Config{MaxConsecutiveRestarts: max})
-			if mon.AddPushChannel(monChid) == nil {
-				panic("add refused")
+			if !strings.HasPrefix(scenario, "add+") {
+				if mon.AddPushChannel(monChid) == nil {
+					panic("add refused")
+				}
 			}
 			mc.Wait()
 			s := sched.New(filter)
@@ -58,6 +60,11 @@ func c14Threads(x *mc.Cell, scenario string, max uint32, bound int) {
 				evs = []func(){deliver(datatransfer.SendDataError, datatransfer.Ongoing), deliver(datatransfer.CleanupComplete, datatransfer.Completed)}
 			case "error+data":
 				evs = []func(){deliver(datatransfer.SendDataError, datatransfer.Ongoing), deliver(datatransfer.DataSent, datatransfer.Ongoing), deliver(datatransfer.ReceiveDataError, datatransfer.Ongoing)}
+			case "add+terminal":
+				// the channel is being added to the monitor while an event that ends it is published
+				evs = []func(){func() { mon.AddPushChannel(monChid) }, deliver(datatransfer.CleanupComplete, datatransfer.Cancelled)}
+			case "add+error+terminal":
+				evs = []func(){func() { mon.AddPullChannel(monChid) }, deliver(datatransfer.ReceiveDataError, datatransfer.Ongoing), deliver(datatransfer.CleanupComplete, datatransfer.Failed)}
 			}
 			for i, f := range evs {
 				s.Go(fmt.Sprintf("deliver%d", i), f)
@@ -139,17 +146,26 @@ func c14Threads(x *mc.Cell, scenario string, max uint32, bound int) {
 		})
 		if pv != nil {
 			x.Violate("C14", "panic;threads;"+scenario, fmt.Sprintf("%v\n%s", pv, stack), mc.EnumReplay(name, c))
+			x.Violate("C20", "monitor;panic;"+scenario, fmt.Sprintf("%v\n%s", pv, stack), mc.EnumReplay(name, c))
 		}
 		return ex
 	})
 }
 
 func init() {
-	for _, sc := range []string{"two-errors", "three-errors", "error+terminal", "error+data"} {
+	for _, sc := range []string{"two-errors", "three-errors", "error+terminal", "error+data", "add+terminal", "add+error+terminal"} {
 		for _, max := range []uint32{1, 2} {
+			if strings.HasPrefix(sc, "add+") && max == 2 {
+				continue
+			}
 			sc, max := sc, max
 			mc.Register("C14", fmt.Sprintf("monitor-threads/%s/max=%d", sc, max), "quick", func(x *mc.Cell) { c14Threads(x, sc, max, 1) })
 			mc.Register("C14", fmt.Sprintf("monitor-threads/%s/max=%d", sc, max), "thorough", func(x *mc.Cell) { c14Threads(x, sc, max, 2) })
+			if strings.HasPrefix(sc, "add+") || sc == "error+terminal" {
+				// the monitor is part of C20's surface: adding a channel / ending it from several goroutines
+				mc.Register("C20", fmt.Sprintf("monitor-threads/%s/max=%d", sc, max), "quick", func(x *mc.Cell) { c14Threads(x, sc, max, 1) })
+				mc.Register("C20", fmt.Sprintf("monitor-threads/%s/max=%d", sc, max), "thorough", func(x *mc.Cell) { c14Threads(x, sc, max, 2) })
+			}
 		}
 	}
 }
